@@ -215,7 +215,7 @@ def decide_and_report(pid, tier, seed, cfg, report, scratch):
         if cex:
             rec['counterexample'] = cex
             rec['replayed'] = cex.get('replayed')
-        elif o.get('kind') == 'loopinv':
+        elif o.get('kind') == 'loopinv' or (o.get('kind') == 'safety' and o.get('scaffold_only')):
             # a loop invariant is proof scaffolding spliced onto a loop by its position; when it stops holding and no input makes the
             # real code fail, nothing says the PROPERTY is violated (the loop may have been restructured): like a lost anchor this is
             # undecided, never an alarm.  The property's grids still run below and alarm with a failing input if there is one; a
@@ -265,12 +265,13 @@ def decide_and_report(pid, tier, seed, cfg, report, scratch):
     if deferred:
         violations = [v for v in violations if v not in deferred]
         for o in deferred:
-            u = f'unit {o.get("unit")}: loop invariant {o["id"]} no longer holds ({o.get("backend")}) and no input of the bounded grids makes the real code fail: proof scaffolding, undecided'
+            what = f'loop invariant {o["id"]} no longer holds' if o.get('kind') == 'loopinv' else f'the proof script of {o.get("fn")} no longer goes through ({", ".join(o.get("sites") or [])}: a lemma precondition / ghost assertion of the unit, not of the code)'
+            u = f'unit {o.get("unit")}: {what} ({o.get("backend")}) and no input of the bounded grids makes the real code fail: proof scaffolding, undecided'
             report['undecided'].append(u)
             if exit_code != 1:
                 lines.append(f'UNDECIDED property={pid} {u}')
             else:
-                lines.append(f'  (also: loop invariant {o["id"]} no longer holds)')
+                lines.append(f'  (also: {what})')
         if exit_code == 0:
             exit_code = 2
     if tier != 'thorough':
